@@ -64,6 +64,9 @@ fn in_consumer<T: Send, F: FnOnce() -> T + Send>(hseed: u64, f: F) -> T {
             .stack_size(2 << 20)
             .spawn_scoped(s, move || {
                 crate::entropy::set_thread_seed(hseed);
+                // the consumer is a server process in its own right: its clock is simulated too (a fixed
+                // instant - nothing in a wire world lets time pass)
+                crate::clock::enable_on_this_thread();
                 f()
             })
             .expect("spawn consumer")
@@ -619,6 +622,39 @@ fn inner_c11(world_no: u64, t: &mut Tape, rep: &mut WorldReport) {
             wire = t.bytes(n);
             damages.push(format!("{n} random bytes"));
             rep.fire("random");
+        } else if t.chance(1, 14) {
+            // a nest built as a *value* and encoded by the real serialiser, level by level through the
+            // places where one IR document carries another: a UTxO set whose UTxO's datum is a UTxO
+            // set whose ... (however a level is laid out on the wire - inline or as an embedded
+            // document with a decoder of its own - this is what the encoder makes of it)
+            let depth = *t.pick(&[300usize, 700, 1500, 2500]);
+            let mut e = tir::Expression::Number(1);
+            for i in 0..depth {
+                let u = Utxo {
+                    r#ref: tx3_tir::model::core::UtxoRef::new(&[(i % 250) as u8; 32], 0),
+                    address: vec![0x60; 29],
+                    assets: tx3_tir::model::assets::CanonicalAssets::from_naked_amount(1),
+                    datum: Some(e),
+                    script: None,
+                };
+                e = tir::Expression::UtxoSet(HashSet::from([u]));
+            }
+            let host = tir::Tx {
+                fees: e,
+                references: vec![],
+                inputs: vec![],
+                outputs: vec![],
+                validity: None,
+                mints: vec![],
+                burns: vec![],
+                adhoc: vec![],
+                collateral: vec![],
+                signers: None,
+                metadata: vec![],
+            };
+            wire = tx3_tir::encoding::to_bytes(&host).0;
+            damages.push(format!("UtxoSet > Utxo.datum > UtxoSet ... nested {depth} deep, encoded by the real serialiser"));
+            rep.fire("value-nest");
         } else if t.chance(1, 8) {
             // a nesting bomb the typed decoder really descends into
             let (w, what) = schema_nest(t, &clean);
@@ -1221,11 +1257,60 @@ fn inner_c16(world_no: u64, t: &mut Tape, rep: &mut WorldReport) {
     let Some(prod) = produce(t, world_no, rep) else { return };
     let lowered_only = matches!(prod.stage, "lowered");
     let (bytes, version) = tx3_tir::encoding::to_bytes(&prod.tx);
+    let mut from_source_only: Vec<String> = vec![];
     let mut declared = params_of(&prod.tx);
     // a name the IR references with two types has no single declared type (which one is reported
     // follows hash order): the client model leaves such names alone
     let ambiguous = conflicting_param_names(&prod.tx);
     declared.retain(|k, _| !ambiguous.contains(k));
+    // what the template declares is also known from the source it was lowered from: every parameter of
+    // the transaction that the generator wrote a use for (all of them, by construction). The client
+    // model supplies those too - the table the server looks parameters up in is the server's own.
+    if lowered_only {
+        if let Some(p) = &prod.program {
+            if let Some(spec) = p.txs.iter().find(|x| x.name == prod.txname) {
+                // the body of this transaction in the source text: a parameter counts as used when its
+                // name occurs there as a whole word
+                let src = p.source();
+                let body: String = src
+                    .split(&format!("tx {}(", prod.txname))
+                    .nth(1)
+                    .and_then(|rest| rest.split_once(") {").map(|x| x.1))
+                    .map(|b| b.split("\ntx ").next().unwrap_or("").to_string())
+                    .unwrap_or_default();
+                let used = |name: &str| {
+                    let bytes = body.as_bytes();
+                    body.match_indices(name).any(|(i, _)| {
+                        let before = i == 0 || !(bytes[i - 1].is_ascii_alphanumeric() || bytes[i - 1] == b'_');
+                        let j = i + name.len();
+                        let after = j >= bytes.len() || !(bytes[j].is_ascii_alphanumeric() || bytes[j] == b'_');
+                        // not as a list index (`xs[name]`): the tree neither reports nor binds a parameter in
+                        // that position (Composite for BuiltInOp::Property exposes the object only) - what a
+                        // template reports is C06's matter, outside the claimed set; left out here
+                        let as_index = i > 0 && bytes[i - 1] == b'[' && j < bytes.len() && bytes[j] == b']';
+                        before && after && !as_index
+                    })
+                };
+                for (n, ty) in &spec.params {
+                    if !used(n) {
+                        continue;
+                    }
+                    let key = n.to_lowercase();
+                    let ty = match ty {
+                        crate::gen::Ty::Int => Type::Int,
+                        crate::gen::Ty::Bytes => Type::Bytes,
+                        crate::gen::Ty::UtxoRef => Type::UtxoRef,
+                        crate::gen::Ty::Bool => Type::Bool,
+                    };
+                    if !declared.contains_key(&key) {
+                        rep.probe("source-parameter-missing-from-find_params");
+                        from_source_only.push(key.clone());
+                        declared.insert(key, ty);
+                    }
+                }
+            }
+        }
+    }
     let mut intended: BTreeMap<String, Intended> = BTreeMap::new();
     let mut args_map = serde_json::Map::new();
     let mut env_map = serde_json::Map::new();
